@@ -999,7 +999,14 @@ Section Full.
         specialize (Ep ltac:(discriminate)). rewrite Ep in H2. unfold mb in *.
         rewrite (Erem ns PNone s room_ok_None) in H1.
         destruct (str_eqb (t_ns t) ns && str_eqb sid s); [discriminate|]. split; [exact H1|lia].
-      + rewrite (Enone eq_refl) in *. auto.
+      + rewrite (Enone eq_refl) in *.
+        assert (Hr : rooms (disc_release m sid (t_ns t)) = rooms m) by apply disc_release_rooms.
+        unfold mb in *. rewrite (mem_ext _ _ Hr) in H1. split; [exact H1|].
+        rewrite (disc_release_pcount m sid (t_ns t) ltac:(apply HW)) in H2.
+        destruct (str_eqb (t_ns t) ns && str_eqb sid s) eqn:Eb; [|lia].
+        apply andb_true_iff in Eb as [E1 E2]. apply str_eqb_eq in E1, E2. subst ns s.
+        exfalso. unfold mem, look, nsmap, agetd in H1. unfold ns_rooms in Ens. rewrite Ens in H1.
+        cbn in H1. discriminate.
   Qed.
 
   (* ---- progress: a connected client some task is aimed at is still ahead of that task ---- *)
@@ -1496,7 +1503,7 @@ Definition x_sched_keyerror : list nat := [0; 1; 1; 1; 1; 1; 0].
 Theorem thread_refuted_twice :
   let c := run_sched GThread [] x_two x_sched_twice x_lone [x_e0] in
   all_done c = true /\ hcount (x_S "S0") x_sl (c_log c) = 2 /\ raised (c_log c) = false /\
-  is_pending (c_mgr c) (x_S "S0") x_sl = true.
+  is_pending (c_mgr c) (x_S "S0") x_sl = false.
 Proof. vm_compute. repeat split. Qed.
 
 Theorem thread_refuted_keyerror :
